@@ -9,6 +9,10 @@ use std::collections::HashSet;
 
 pub const NEVER: u64 = u64::MAX;
 
+/// what `add` carrying a non-zero CAS is answered on a key that is really absent (learnt, process wide)
+static ADD_CAS_ON_ABSENT: std::sync::atomic::AtomicU32 = std::sync::atomic::AtomicU32::new(u32::MAX);
+static ADD_CAS_ON_ABSENT_VARIES: std::sync::atomic::AtomicBool = std::sync::atomic::AtomicBool::new(false);
+
 #[derive(Clone, Debug, PartialEq)]
 pub enum CasArg {
     Zero,
@@ -744,6 +748,26 @@ impl Model {
                             if cas != 0 {
                                 nf_allowed = true;
                                 ex_allowed = true;
+                                // L-a leaves open what an add carrying a CAS answers on an absent key, but C05 does
+                                // not: an expired item "is treated as absent by ... add". What this implementation
+                                // answers on keys that are really absent is learnt from the run itself; an expired
+                                // item - collected or not - must get the same answer
+                                let truly_absent = matches!(slot, Slot::Absent(_));
+                                if truly_absent {
+                                    let prev = ADD_CAS_ON_ABSENT.swap(status as u32, std::sync::atomic::Ordering::Relaxed);
+                                    if prev != u32::MAX && prev != status as u32 {
+                                        ADD_CAS_ON_ABSENT_VARIES.store(true, std::sync::atomic::Ordering::Relaxed);
+                                    }
+                                } else if !absent {
+                                    let learnt = ADD_CAS_ON_ABSENT.load(std::sync::atomic::Ordering::Relaxed);
+                                    if learnt != u32::MAX && !ADD_CAS_ON_ABSENT_VARIES.load(std::sync::atomic::Ordering::Relaxed) && learnt != status as u32 {
+                                        return Err(viol(
+                                            &["C05", "C06"],
+                                            "expired-not-treated-as-absent",
+                                            format!("{}: answered {:#x}, but the same command on an absent key is answered {:#x}: an expired item must be treated as absent by add", what, status, learnt),
+                                        ));
+                                    }
+                                }
                             }
                         } else if vis == Vis::Live {
                             ex_allowed = true;
